@@ -2,8 +2,274 @@ import Spine.IsRnd
 import Spine.FloatL
 import Mathlib.Tactic.Zify
 
-/-! C19 (repaired code): `Round(v * 10^n)` recovers `j` from the double `v` nearest to `j / 10^n` -/
+/-! C19, lemmas over the rounding relation `IsRnd` (the only C19 file besides `FloatL.lean` that uses
+    Mathlib tactics; never imported by a driver):
+    * `isRnd_unique` — the relation is functional (a rational has one nearest double);
+    * `isRnd_congr` — it depends on the rational only, not on the fraction that denotes it;
+    * `decimal_unique` — two decimals with the same denominator that round to the same double are equal
+      (numerator below 2^50);
+    * `isRnd_exp_neg`, `nearest_recovers` — the decimals search finds `k` again;
+    * `c19_round_recovers` — (repaired code) `Round(v * 10^n)` recovers `j` from the double `v` nearest
+      to `j / 10^n`;
+    * `isRnd_exp_nonpos`, `round_close`, `trunc_close` — `Round` / `Trunc` of a correctly rounded product
+      below 2^53 is within one unit of the exact product. -/
 namespace Spine.Rnd
+
+/-- two candidates in different binades cannot both be nearest -/
+theorem exp_unique_aux (n d m m' a b a' b' K : ℤ) (hd : 0 < d) (ha : 0 < a) (hb : 0 < b)
+    (ha' : 0 < a') (_hb' : 0 < b') (hK : 2 ≤ K) (hrel : b' * a = K * b * a')
+    (hm53 : m < 2 ^ 53) (hm' : 2 ^ 52 ≤ m')
+    (up : 2 * (n * a) ≤ 2 * (m * (d * b)) + d * b)
+    (tie : 2 * (n * a) = 2 * (m * (d * b)) + d * b → m % 2 = 0)
+    (lo' : 2 * (m' * (d * b')) ≤ 2 * (n * a') + d * b')
+    (q' : m' = 2 ^ 52 → 4 * (m' * (d * b')) ≤ 4 * (n * a') + d * b') : False := by
+  have hP : 0 < d * b * a' := by positivity
+  have e1 : d * b' * a = K * (d * b * a') := by
+    calc d * b' * a = d * (b' * a) := by ring
+      _ = d * (K * b * a') := by rw [hrel]
+      _ = K * (d * b * a') := by ring
+  -- B: 2 X ≤ (2m+1) P  with X = n a a'
+  have hB : 2 * (n * a * a') ≤ (2 * m + 1) * (d * b * a') := by
+    have := mul_le_mul_of_nonneg_right up ha'.le
+    nlinarith
+  rcases eq_or_lt_of_le hm' with h52 | hgt
+  · -- m' = 2^52
+    have hq := q' h52.symm
+    have hA : (4 * m' - 1) * (K * (d * b * a')) ≤ 4 * (n * a * a') := by
+      have := mul_le_mul_of_nonneg_right hq ha.le
+      rw [← e1]
+      nlinarith
+    -- (2^54 - 1) K P ≤ 4 X ≤ 2 (2m+1) P
+    have hKP : (2 ^ 54 - 1) * (K * (d * b * a')) ≤ (4 * m + 2) * (d * b * a') := by
+      rw [← h52] at hA
+      nlinarith
+    have hK2 : (2 ^ 54 - 1) * K ≤ 4 * m + 2 := by
+      by_contra hcon
+      rw [not_le] at hcon
+      have : (4 * m + 2) * (d * b * a') < (2 ^ 54 - 1) * K * (d * b * a') :=
+        mul_lt_mul_of_pos_right hcon hP
+      nlinarith
+    -- K = 2 and m = 2^53 - 1
+    have hKeq : K = 2 := by nlinarith
+    have hmeq : m = 2 ^ 53 - 1 := by subst hKeq; omega
+    -- all tight: tie for (m, e)
+    have htie : 2 * (n * a) = 2 * (m * (d * b)) + d * b := by
+      subst hKeq
+      have h1 : (2 ^ 54 - 1) * (2 * (d * b * a')) ≤ 4 * (n * a * a') := by rw [← h52] at hA; linarith
+      have h2 : 4 * (n * a * a') ≤ 2 * ((2 * m + 1) * (d * b * a')) := by linarith
+      have h3 : 2 * (n * a * a') = (2 * m + 1) * (d * b * a') := by rw [hmeq] at h2 ⊢; linarith
+      have h4 : (2 * (n * a)) * a' = (2 * (m * (d * b)) + d * b) * a' := by nlinarith
+      exact mul_right_cancel₀ ha'.ne' h4
+    have := tie htie
+    rw [hmeq] at this
+    norm_num at this
+  · -- m' ≥ 2^52 + 1
+    have hA : (2 * m' - 1) * (K * (d * b * a')) ≤ 2 * (n * a * a') := by
+      have := mul_le_mul_of_nonneg_right lo' ha.le
+      rw [← e1]
+      nlinarith
+    have h1 : (2 * m' - 1) * (K * (d * b * a')) ≤ (2 * m + 1) * (d * b * a') := by linarith
+    have h2 : (2 ^ 53 + 1) * (2 * (d * b * a')) ≤ (2 * m' - 1) * (K * (d * b * a')) := by
+      apply mul_le_mul
+      · linarith
+      · nlinarith
+      · positivity
+      · linarith
+    nlinarith
+
+/-- the relation in integer form, with the two scale factors named -/
+theorem isRnd_int {n d m : ℕ} {e : ℤ} (h : IsRnd n d m e) :
+    (2 : ℤ) ^ 52 ≤ m ∧ (m : ℤ) < 2 ^ 53 ∧
+    2 * ((m : ℤ) * (d * 2 ^ e.toNat)) ≤ 2 * (n * 2 ^ (-e).toNat) + d * 2 ^ e.toNat ∧
+    2 * ((n : ℤ) * 2 ^ (-e).toNat) ≤ 2 * (m * (d * 2 ^ e.toNat)) + d * 2 ^ e.toNat ∧
+    ((2 * ((m : ℤ) * (d * 2 ^ e.toNat)) = 2 * (n * 2 ^ (-e).toNat) + d * 2 ^ e.toNat ∨
+      2 * ((n : ℤ) * 2 ^ (-e).toNat) = 2 * (m * (d * 2 ^ e.toNat)) + d * 2 ^ e.toNat) → (m : ℤ) % 2 = 0) ∧
+    ((m : ℤ) = 2 ^ 52 → 4 * ((m : ℤ) * (d * 2 ^ e.toNat)) ≤ 4 * (n * 2 ^ (-e).toNat) + d * 2 ^ e.toNat) := by
+  unfold IsRnd at h
+  obtain ⟨h1, h2, h3, h4, h5, h6⟩ := h
+  refine ⟨by exact_mod_cast h1, by exact_mod_cast h2, by exact_mod_cast h3, by exact_mod_cast h4, ?_, ?_⟩
+  · intro ht
+    have : m % 2 = 0 := h5 (by
+      rcases ht with ht | ht
+      · left; exact_mod_cast ht
+      · right; exact_mod_cast ht)
+    omega
+  · intro hm
+    have hm' : m = 2 ^ 52 := by exact_mod_cast hm
+    exact_mod_cast h6 hm'
+
+theorem two_pow_rel (e e' : ℤ) (h : e < e') :
+    (2 : ℤ) ^ e'.toNat * 2 ^ (-e).toNat = 2 ^ (e' - e).toNat * 2 ^ e.toNat * 2 ^ (-e').toNat := by
+  rw [← pow_add, ← pow_add, ← pow_add]
+  congr 1
+  omega
+
+theorem isRnd_exp_lt_false {n d m m' : ℕ} {e e' : ℤ} (hd : 0 < d) (h : IsRnd n d m e)
+    (h' : IsRnd n d m' e') (hlt : e < e') : False := by
+  obtain ⟨_, h2, _, h4, h5, _⟩ := isRnd_int h
+  obtain ⟨g1, _, g3, _, _, g6⟩ := isRnd_int h'
+  have hK : (2 : ℤ) ≤ 2 ^ (e' - e).toNat := by
+    have : 1 ≤ (e' - e).toNat := by omega
+    calc (2 : ℤ) = 2 ^ 1 := by norm_num
+      _ ≤ 2 ^ (e' - e).toNat := pow_le_pow_right₀ (by norm_num) this
+  exact exp_unique_aux n d m m' (2 ^ (-e).toNat) (2 ^ e.toNat) (2 ^ (-e').toNat) (2 ^ e'.toNat)
+    (2 ^ (e' - e).toNat) (by exact_mod_cast hd) (by positivity) (by positivity) (by positivity)
+    (by positivity) hK (two_pow_rel e e' hlt) h2 g1 h4 (fun ht => h5 (Or.inr ht)) g3 g6
+
+/-- the rounding relation is functional: a rational has one nearest double -/
+theorem isRnd_unique {n d m m' : ℕ} {e e' : ℤ} (hd : 0 < d) (h : IsRnd n d m e)
+    (h' : IsRnd n d m' e') : m = m' ∧ e = e' := by
+  rcases lt_trichotomy e e' with hlt | heq | hgt
+  · exact (isRnd_exp_lt_false hd h h' hlt).elim
+  · subst heq
+    refine ⟨?_, rfl⟩
+    obtain ⟨_, _, h3, h4, h5, _⟩ := isRnd_int h
+    obtain ⟨_, _, g3, g4, g5, _⟩ := isRnd_int h'
+    have hD : (0 : ℤ) < d * 2 ^ e.toNat := by
+      have : (0 : ℤ) < d := by exact_mod_cast hd
+      positivity
+    generalize (d : ℤ) * 2 ^ e.toNat = D at *
+    generalize (n : ℤ) * 2 ^ (-e).toNat = N at *
+    have hle : (m : ℤ) ≤ m' + 1 := by
+      by_contra hcon
+      rw [not_le] at hcon
+      have : ((m' : ℤ) + 2) * D ≤ m * D := mul_le_mul_of_nonneg_right (by linarith) hD.le
+      nlinarith
+    have hge : (m' : ℤ) ≤ m + 1 := by
+      by_contra hcon
+      rw [not_le] at hcon
+      have : ((m : ℤ) + 2) * D ≤ m' * D := mul_le_mul_of_nonneg_right (by linarith) hD.le
+      nlinarith
+    have hcases : (m : ℤ) = m' ∨ (m : ℤ) = m' + 1 ∨ (m' : ℤ) = m + 1 := by omega
+    rcases hcases with hc | hc | hc
+    · exact_mod_cast hc
+    · exfalso
+      have e1 : 2 * ((m : ℤ) * D) = 2 * N + D := by rw [hc] at h3 ⊢; nlinarith
+      have e2 : 2 * N = 2 * ((m' : ℤ) * D) + D := by rw [hc] at h3; nlinarith
+      have p1 := h5 (Or.inl e1)
+      have p2 := g5 (Or.inr e2)
+      omega
+    · exfalso
+      have e1 : 2 * ((m' : ℤ) * D) = 2 * N + D := by rw [hc] at g3 ⊢; nlinarith
+      have e2 : 2 * N = 2 * ((m : ℤ) * D) + D := by rw [hc] at g3; nlinarith
+      have p1 := g5 (Or.inl e1)
+      have p2 := h5 (Or.inr e2)
+      omega
+  · exact (isRnd_exp_lt_false hd h' h hgt).elim
+
+theorem scale_le {n d n' d' : ℕ} (hd : 0 < d) (hq : n * d' = n' * d) (x y m A B : ℕ)
+    (h : x * (m * (d * B)) ≤ y * (n * A) + d * B) : x * (m * (d' * B)) ≤ y * (n' * A) + d' * B := by
+  apply Nat.le_of_mul_le_mul_left _ hd
+  calc d * (x * (m * (d' * B))) = d' * (x * (m * (d * B))) := by ring
+    _ ≤ d' * (y * (n * A) + d * B) := Nat.mul_le_mul_left _ h
+    _ = y * (n * d' * A) + d * (d' * B) := by ring
+    _ = y * (n' * d * A) + d * (d' * B) := by rw [hq]
+    _ = d * (y * (n' * A) + d' * B) := by ring
+
+theorem scale_ge {n d n' d' : ℕ} (hd : 0 < d) (hq : n * d' = n' * d) (x y m A B : ℕ)
+    (h : y * (n * A) ≤ x * (m * (d * B)) + d * B) : y * (n' * A) ≤ x * (m * (d' * B)) + d' * B := by
+  apply Nat.le_of_mul_le_mul_left _ hd
+  calc d * (y * (n' * A)) = y * (n' * d * A) := by ring
+    _ = y * (n * d' * A) := by rw [hq]
+    _ = d' * (y * (n * A)) := by ring
+    _ ≤ d' * (x * (m * (d * B)) + d * B) := Nat.mul_le_mul_left _ h
+    _ = d * (x * (m * (d' * B)) + d' * B) := by ring
+
+theorem scale_eq1 {n d n' d' : ℕ} (hd : 0 < d) (hq : n * d' = n' * d) (x y m A B : ℕ)
+    (h : x * (m * (d * B)) = y * (n * A) + d * B) : x * (m * (d' * B)) = y * (n' * A) + d' * B := by
+  apply Nat.eq_of_mul_eq_mul_left hd
+  calc d * (x * (m * (d' * B))) = d' * (x * (m * (d * B))) := by ring
+    _ = d' * (y * (n * A) + d * B) := by rw [h]
+    _ = y * (n * d' * A) + d * (d' * B) := by ring
+    _ = y * (n' * d * A) + d * (d' * B) := by rw [hq]
+    _ = d * (y * (n' * A) + d' * B) := by ring
+
+theorem scale_eq2 {n d n' d' : ℕ} (hd : 0 < d) (hq : n * d' = n' * d) (x y m A B : ℕ)
+    (h : y * (n * A) = x * (m * (d * B)) + d * B) : y * (n' * A) = x * (m * (d' * B)) + d' * B := by
+  apply Nat.eq_of_mul_eq_mul_left hd
+  calc d * (y * (n' * A)) = y * (n' * d * A) := by ring
+    _ = y * (n * d' * A) := by rw [hq]
+    _ = d' * (y * (n * A)) := by ring
+    _ = d' * (x * (m * (d * B)) + d * B) := by rw [h]
+    _ = d * (x * (m * (d' * B)) + d' * B) := by ring
+
+/-- the relation depends on the rational `n / d` only -/
+theorem isRnd_congr {n d n' d' m : ℕ} {e : ℤ} (hd : 0 < d) (hd' : 0 < d') (hq : n * d' = n' * d)
+    (h : IsRnd n d m e) : IsRnd n' d' m e := by
+  unfold IsRnd at h ⊢
+  obtain ⟨h1, h2, h3, h4, h5, h6⟩ := h
+  simp only at h3 h4 h5 h6 ⊢
+  refine ⟨h1, h2, scale_le hd hq 2 2 m _ _ h3, scale_ge hd hq 2 2 m _ _ h4, ?_, ?_⟩
+  · intro ht
+    apply h5
+    rcases ht with ht | ht
+    · exact Or.inl (scale_eq1 hd' hq.symm 2 2 m _ _ ht)
+    · exact Or.inr (scale_eq2 hd' hq.symm 2 2 m _ _ ht)
+  · intro hm
+    exact scale_le hd hq 4 4 m _ _ (h6 hm)
+
+/-- two decimals with the same denominator that round to the same double are equal, as long as the
+    doubles are spaced closer than the decimals (`k < 2^50`) -/
+theorem decimal_unique {j k S m : ℕ} {e : ℤ} (hS : 0 < S) (hk : k < 2 ^ 50)
+    (hj : IsRnd j S m e) (hk' : IsRnd k S m e) : j = k := by
+  obtain ⟨h1, _, h3, h4, _, _⟩ := isRnd_int hk'
+  obtain ⟨_, _, g3, g4, _, _⟩ := isRnd_int hj
+  have ha : (0 : ℤ) < 2 ^ (-e).toNat := by positivity
+  have hSb : (0 : ℤ) < S * 2 ^ e.toNat := by
+    have : (0 : ℤ) < S := by exact_mod_cast hS
+    positivity
+  have hkz : (k : ℤ) < 2 ^ 50 := by exact_mod_cast hk
+  generalize (S : ℤ) * 2 ^ e.toNat = D at *
+  generalize (2 : ℤ) ^ (-e).toNat = a at *
+  -- D < a
+  have hDa : D < a := by
+    have h5 : (2 * (m : ℤ) - 1) * D ≤ 2 * ((k : ℤ) * a) := by nlinarith
+    have h6 : (2 ^ 53 - 1) * D ≤ (2 * (m : ℤ) - 1) * D := mul_le_mul_of_nonneg_right (by linarith) hSb.le
+    have h7 : 2 * ((k : ℤ) * a) ≤ (2 ^ 51 - 2) * a := by nlinarith
+    nlinarith
+  have h8 : ((j : ℤ) - k) * a ≤ D := by nlinarith
+  have h9 : ((k : ℤ) - j) * a ≤ D := by nlinarith
+  have : (j : ℤ) = k := by
+    by_contra hne
+    rcases lt_or_gt_of_ne hne with hlt | hgt
+    · have : a ≤ ((k : ℤ) - j) * a := by nlinarith
+      linarith
+    · have : a ≤ ((j : ℤ) - k) * a := by nlinarith
+      linarith
+  exact_mod_cast this
+
+/-- the double nearest to `k / T` (0 < k < 2^50) has a negative exponent -/
+theorem isRnd_exp_neg {n d m : ℕ} {e : ℤ} (hd : 0 < d) (hn : n < 2 ^ 51 * d) (h : IsRnd n d m e) : e < 0 := by
+  by_contra hcon
+  have he : 0 ≤ e := by omega
+  obtain ⟨h1, _, h3, _, _, _⟩ := isRnd_int h
+  have hz : (-e).toNat = 0 := by omega
+  rw [hz, pow_zero, mul_one] at h3
+  have hb : (1 : ℤ) ≤ 2 ^ e.toNat := one_le_pow₀ (by norm_num)
+  have hdz : (0 : ℤ) < d := by exact_mod_cast hd
+  have hnz : (n : ℤ) < 2 ^ 51 * d := by exact_mod_cast hn
+  have hD : (d : ℤ) ≤ d * 2 ^ e.toNat := by nlinarith
+  have : (2 ^ 53 - 1) * ((d : ℤ) * 2 ^ e.toNat) ≤ 2 * n := by nlinarith
+  nlinarith
+
+/-- the integer nearest to `v * T` is `k` when `v` is the double nearest to `k / T`, `0 < k < 2^50` -/
+theorem nearest_recovers (k T m E : ℕ) (hk : k < 2 ^ 50) (hT : 1 ≤ T)
+    (h : IsRnd k T m (-(E : ℤ))) : (2 * (m * T) + 2 ^ E) / (2 * 2 ^ E) = k := by
+  obtain ⟨h1, _, h3, h4, _, _⟩ := isRnd_int h
+  simp only [neg_neg, Int.toNat_natCast, Int.toNat_neg_natCast, pow_zero, mul_one] at h3 h4
+  have hTz : (1 : ℤ) ≤ T := by exact_mod_cast hT
+  have hkz : (k : ℤ) < 2 ^ 50 := by exact_mod_cast hk
+  have ha : (0 : ℤ) < 2 ^ E := by positivity
+  -- 4 T < a = 2^E
+  have haT : 4 * (T : ℤ) < 2 ^ E := by
+    have h5 : (2 ^ 53 - 1) * (T : ℤ) ≤ 2 * ((k : ℤ) * 2 ^ E) := by nlinarith
+    have h6 : 2 * ((k : ℤ) * 2 ^ E) ≤ (2 ^ 51 - 2) * 2 ^ E := by nlinarith
+    by_contra hcon
+    rw [not_lt] at hcon
+    nlinarith
+  apply Nat.div_eq_of_lt_le
+  · zify; nlinarith
+  · zify; nlinarith
 
 theorem isRnd_neg (n d m E : Nat) (h : IsRnd n d m (-(E : Int))) :
     2 ^ 52 ≤ m ∧ 2 * (m * d) ≤ 2 * (n * 2 ^ E) + d ∧ 2 * (n * 2 ^ E) ≤ 2 * (m * d) + d := by
@@ -47,5 +313,65 @@ theorem c19_round_recovers (j T m m' E E' : Nat) (hj : 0 < j) (hjb : j < 2 ^ 50)
   apply Nat.div_eq_of_lt_le
   · zify; push_cast; nlinarith
   · zify; push_cast; nlinarith
+
+/-- a rational of at most 2^53 - 1 rounds to a double with non-positive exponent -/
+theorem isRnd_exp_nonpos {n d m : ℕ} {e : ℤ} (hd : 0 < d) (hn : n + d ≤ 2 ^ 53 * d)
+    (h : IsRnd n d m e) : e ≤ 0 := by
+  by_contra hcon
+  have he : 1 ≤ e := by omega
+  obtain ⟨h1, _, h3, _, _, h6⟩ := isRnd_int h
+  have hz : (-e).toNat = 0 := by omega
+  rw [hz, pow_zero, mul_one] at h3 h6
+  have hb : (2 : ℤ) ≤ 2 ^ e.toNat := by
+    have : 1 ≤ e.toNat := by omega
+    calc (2 : ℤ) = 2 ^ 1 := by norm_num
+      _ ≤ 2 ^ e.toNat := pow_le_pow_right₀ (by norm_num) this
+  have hdz : (0 : ℤ) < d := by exact_mod_cast hd
+  have hnz : (n : ℤ) + d ≤ 2 ^ 53 * d := by exact_mod_cast hn
+  have hD : (0 : ℤ) < d * 2 ^ e.toNat := by positivity
+  have hD2 : 2 * (d : ℤ) ≤ d * 2 ^ e.toNat := by nlinarith
+  generalize (d : ℤ) * 2 ^ e.toNat = D at *
+  rcases eq_or_lt_of_le h1 with h52 | hgt
+  · have := h6 h52.symm
+    rw [← h52] at this
+    nlinarith
+  · have : (2 ^ 52 + 1) * D ≤ (m : ℤ) * D := mul_le_mul_of_nonneg_right (by linarith) hD.le
+    nlinarith
+
+/-- `math.Round` of the correctly rounded product is within one unit of the exact product -/
+theorem round_close (N m' E E' : ℕ) (h : IsRnd N (2 ^ E) m' (-(E' : ℤ))) :
+    roundHalfUp m' E' * 2 ^ E ≤ N + 2 ^ E ∧ N ≤ roundHalfUp m' E' * 2 ^ E + 2 ^ E := by
+  obtain ⟨_, h3, h4⟩ := isRnd_neg N (2 ^ E) m' E' h
+  unfold roundHalfUp
+  have hY : 0 < 2 * 2 ^ E' := by positivity
+  have f1 := Nat.div_mul_le_self (2 * m' + 2 ^ E') (2 * 2 ^ E')
+  have f2 := Nat.lt_div_mul_add (a := 2 * m' + 2 ^ E') hY
+  generalize (2 * m' + 2 ^ E') / (2 * 2 ^ E') = q at *
+  have hA : 0 < 2 ^ E := by positivity
+  have hB : 1 ≤ 2 ^ E' := Nat.one_le_two_pow
+  constructor
+  · apply Nat.le_of_mul_le_mul_right (c := 2 * 2 ^ E') _ hY
+    zify at *
+    nlinarith
+  · apply Nat.le_of_mul_le_mul_right (c := 2 * 2 ^ E') _ hY
+    zify at *
+    nlinarith
+
+/-- `math.Trunc` of the correctly rounded product is less than one unit away from the exact product -/
+theorem trunc_close (N m' E E' : ℕ) (h : IsRnd N (2 ^ E) m' (-(E' : ℤ))) :
+    m' / 2 ^ E' * 2 ^ E < N + 2 ^ E ∧ N < m' / 2 ^ E' * 2 ^ E + 2 ^ E := by
+  obtain ⟨_, h3, h4⟩ := isRnd_neg N (2 ^ E) m' E' h
+  have hY : 0 < 2 ^ E' := by positivity
+  have f1 := Nat.div_mul_le_self m' (2 ^ E')
+  have f2 := Nat.lt_div_mul_add (a := m') hY
+  generalize m' / 2 ^ E' = q at *
+  have hA : 0 < 2 ^ E := by positivity
+  constructor
+  · apply Nat.lt_of_mul_lt_mul_right (a := 2 * 2 ^ E')
+    zify at *
+    nlinarith
+  · apply Nat.lt_of_mul_lt_mul_right (a := 2 * 2 ^ E')
+    zify at *
+    nlinarith
 
 end Spine.Rnd
